@@ -946,7 +946,14 @@ class ICalendarFile(File):
                     pass
                 else:
                     if p is not None:
-                        yield p.to_ical()
+                        dt = getattr(p, "dt", None)
+                        if isinstance(dt, datetime) and dt.tzinfo is not None:
+                            # Index values carry no parameters, so a TZID would
+                            # be lost and the value read back as floating time:
+                            # store zoned date-times in UTC.
+                            yield vDatetime(dt.astimezone(timezone.utc)).to_ical()
+                        else:
+                            yield p.to_ical()
             else:
                 raise AssertionError(f"segments: {segments!r}")
 
